@@ -186,6 +186,14 @@ class HgStopErr(HgErr, StopIteration):
     """A StopIteration raised by a node function (a `next()` on an exhausted iterator, say)."""
 
 
+class HgSilentErr(HgErr):
+    """An exception without a message (raise NotImplementedError, ValueError() ...): str(e) == ''."""
+
+    def __init__(self, eid):
+        Exception.__init__(self)
+        self.eid = eid
+
+
 class HgFalsyErr(HgErr):
     """An exception object that is falsy (an error carrying an empty list of problems, say): still THE raised object."""
 
@@ -497,7 +505,8 @@ class RealRun:
             if self.stop:
                 e = HgStopErr(eid)
             else:
-                e = HgFalsyErr(eid) if eid % 3 == 2 else HgErr(eid)      # a third of the injected errors are falsy objects
+                # a third of the injected errors are falsy objects, a third carry no message
+                e = (HgFalsyErr, HgSilentErr, HgErr)[(eid + len(self.log)) % 3](eid)
             self.raised.append(e)
             return e
 
